@@ -652,6 +652,8 @@ def native_check(c, f, nargs, want_kind=None):
             if w is False and not any(w2 is not False for (e2, w2, o2, i2) in matched if e2 is not e):
                 violated.append('raises:%s allowed' % e.__name__)
         return {'observation': obs, 'violated': violated, 'pre': True}
+    if isinstance(result, types.GeneratorType):
+        result = tuple(result)          # a generator function's result is the sequence it yields
     obs['returned'] = repr(_norm_native(result))[:400]
     values['result'] = result
     for (e, w, o, iff) in whens:
@@ -788,6 +790,8 @@ def crosscheck(c, f, n, seed):
         a_native = {k: (c.sig[k].native_copy(v) if k in c.sig else v) for k, v in nargs.items()}
         try:
             r = f(*[a_native[p] for p in params if p in a_native])
+            if isinstance(r, types.GeneratorType):
+                r = tuple(r)
             nat = ('ret', _norm_native(r), {k: _norm_native(v) for k, v in a_native.items()})
         except Exception as ex:
             nat = ('raise', type(ex).__name__, None)
